@@ -288,27 +288,27 @@ Theorem step_sim s sp o : R s sp -> op_wf o ->
   R (fst (step pl I s o)) (fst (spec_step pl cap isg sp o))
   /\ out_sim (snd (step pl I s o)) (snd (spec_step pl cap isg sp o)).
 Proof.
-  intros HR Hw. destruct o; simpl.
+  intros HR Hw. destruct o; cbn [step spec_step].
   - destruct (sim_insert s sp q HR) as [H1 H2].
     destruct (i_insert I s q) as [s' r]. destruct (spec_insert cap isg sp q) as [sp' r'].
-    simpl in *. subst. split; auto. destruct r'; reflexivity.
+    simpl in *. subst. split; auto; destruct r'; simpl; try reflexivity.
   - destruct (sim_remove s sp q HR) as [H1 H2].
     destruct (i_remove I s q) as [s' r]. destruct (spec_remove isg sp q) as [sp' r'].
-    simpl in *. subst. split; auto. reflexivity.
+    simpl in *. subst. split; auto; simpl; try reflexivity.
   - split; auto. simpl. f_equal. apply sim_contains; auto.
   - split; auto. simpl. destruct HR as (HI & HP & HT). destruct Hw as (W1 & W2 & W3 & W4).
     eapply perm_trans; [apply (ok_query cap I ok); auto|]. apply Permutation_filter; auto.
   - split; auto. simpl. destruct HR as (HI & HP & HT). auto.
   - destruct Hw as (W1 & W2 & W3 & W4).
     destruct (sim_remove_matching s sp sm pm om gm HR W1 W2 W3 W4) as [H1 H2].
-    destruct (api_remove_matching I s sm pm om gm) as [s' n]. simpl in *. subst. split; auto. reflexivity.
-  - split; [apply sim_retain_matching; auto | reflexivity].
+    destruct (api_remove_matching I s sm pm om gm) as [s' n]. simpl in *. subst. split; auto; simpl; try reflexivity.
+  - split; [apply sim_retain_matching; auto | simpl; reflexivity].
   - destruct (sim_insert_all l s sp 0 HR) as [H1 H2].
     destruct (api_insert_all I s l 0) as [s' r]. destruct (spec_insert_all cap isg sp l 0) as [sp' r'].
-    simpl in *. subst. split; auto. destruct r'; reflexivity.
+    simpl in *. subst. split; auto; destruct r'; simpl; try reflexivity.
   - destruct (sim_remove_all l s sp 0 HR) as [H1 H2].
     destruct (api_remove_all I s l 0) as [s' r]. destruct (spec_remove_all isg sp l 0) as [sp' r'].
-    simpl in *. subst. split; auto. reflexivity.
+    simpl in *. subst. split; auto; simpl; try reflexivity.
   - split; auto. simpl. destruct HR as (HI & HP & HT). apply enum_terms_perm; auto.
 Qed.
 
